@@ -179,6 +179,19 @@ def check_single(d, ck):
     ck.run("variable(dtype)", c, lambda: numpoly.variable(dtype=d), {(1,): one}, d, d)
     ck.run("symbols(dtype)", c, lambda: numpoly.symbols("q0", dtype=d), {(1,): one}, d, d)
     ck.run("variable(2,dtype)", c, lambda: numpoly.variable(2, dtype=d)[1], {(0, 1): one}, d, d)
+    raw = numpy.array(numpoly.polynomial_from_attributes([[0], [2]], [x, x[::-1].copy()]).values)
+    if raw.dtype[0] == numpy.dtype(d):
+        ck.run("polynomial(structured)", c, lambda: numpoly.polynomial(raw), {(0,): x, (2,): x[::-1]}, d, d)
+    try:
+        import sympy
+        expr = 3 * sympy.Symbol("q0") ** 2 + 2
+    except Exception:
+        expr = None
+    if expr is not None:
+        with warnings.catch_warnings(), numpy.errstate(all="ignore"):
+            warnings.simplefilter("ignore")
+            ck.run("polynomial(sympy,dtype)", c, lambda: numpoly.polynomial(expr, dtype=d),
+                   {(0,): numpy.array(2).astype(d), (2,): numpy.array(3).astype(d)}, d, d)
     base = numpoly.polynomial_from_attributes([[0], [1]], [data(d, (2, 2)), data(d, (2, 2), 1)])
     a, b = data(d, (2, 2)), data(d, (2, 2), 1)
     if base.dtype == numpy.dtype(d):
@@ -228,6 +241,9 @@ def check_pair(d1, d2, ck):
         ck.run("astype", c, lambda: src.astype(d2), {(0,): cast, (1,): cast[::-1]}, d2, lab)
         ck.run("polynomial(ndpoly,dtype)", c, lambda: numpoly.polynomial(src, dtype=d2), {(0,): cast, (1,): cast[::-1]}, d2, lab)
         ck.run("aspolynomial(ndpoly,dtype)", c, lambda: numpoly.aspolynomial(src, dtype=d2), {(0,): cast, (1,): cast[::-1]}, d2, lab)
+        raw = numpy.array(src.values)
+        ck.run("polynomial(structured,dtype)", c, lambda: numpoly.polynomial(raw, names=src.names, dtype=d2),
+               {(0,): cast, (1,): cast[::-1]}, d2, lab)
     # a coefficient list mixing dtypes: the polynomial takes the dtype of the first coefficient (or the
     # requested one) and every other coefficient must be cast like numpy casts it
     y = data(d2, (3,), 1)
